@@ -310,16 +310,16 @@ class _Capture:
 _RUN_CACHE = {}
 
 
-def run_main(sub, cli, ftoml, fjson, has_toml, stdin_bytes, style=0, extra=None):
+def run_main(sub, cli, ftoml, fjson, has_toml, stdin_bytes, style=0, extra=None, getpass=""):
     """memoised per worker process (the run is deterministic): the property oracle re-uses the observation made for
     the correspondence check of the same case"""
-    key = json.dumps([sub, cli, ftoml, fjson, bool(has_toml), stdin_bytes.hex(), style, extra], sort_keys=True)
+    key = json.dumps([sub, cli, ftoml, fjson, bool(has_toml), stdin_bytes.hex(), style, extra, getpass], sort_keys=True)
     if key not in _RUN_CACHE:
-        _RUN_CACHE[key] = _run_main(sub, cli, ftoml, fjson, has_toml, stdin_bytes, style, extra)
+        _RUN_CACHE[key] = _run_main(sub, cli, ftoml, fjson, has_toml, stdin_bytes, style, extra, getpass)
     return _RUN_CACHE[key]
 
 
-def _run_main(sub, cli, ftoml, fjson, has_toml, stdin_bytes, style=0, extra=None):
+def _run_main(sub, cli, ftoml, fjson, has_toml, stdin_bytes, style=0, extra=None, getpass=""):
     """run bits.__main__.main() in-process through harness/cli.py; returns dict(config, out, ret, exit, handlers, calls,
     pipeline_done)"""
     import cli as cli_driver
@@ -341,7 +341,7 @@ def _run_main(sub, cli, ftoml, fjson, has_toml, stdin_bytes, style=0, extra=None
     argv = (([sub] + (POSITIONALS.get(sub, []) if extra is None else list(extra))) if sub else [])
     argv += render_argv(sub, cli, style)
     r = cli_driver.run_main(
-        argv, stdin=stdin_bytes, config_json=fjson, config_toml=ftoml, has_toml=bool(has_toml), getpass="",
+        argv, stdin=stdin_bytes, config_json=fjson, config_toml=ftoml, has_toml=bool(has_toml), getpass=getpass,
         stubs={
             "bits.keys.key": lambda: FIXED_KEY,
             "secrets.token_bytes": lambda n=32: bytes(n),
@@ -392,6 +392,16 @@ SCENARIOS = {
                       [("blockchain", "args.blockheight is None", "read_bytes"), ("blockchain", "", "write_bytes")]),
     "blockchain-0": ("blockchain", ["0"], None, None, False, True, [("blockchain", "", "write_bytes")]),
 }
+# what the (stubbed) getpass returns in the branches that prompt for a passphrase
+SCN_GETPASS = {"mnemonic-to-seed": " pass phrase ", "mnemonic-to-master-key": "pw"}
+# branches whose output depends on config.network: id -> (subcommand, argv, data fed as hex | None, raw stdin | None)
+NET_SCENARIOS = {
+    "wif": ("wif", [], "KEY", None),
+    "addr": ("addr", [], "H160", None),
+    "mnemonic-to-master-key": ("mnemonic", ["--to-master-key"], None, "MNEMONIC"),
+    "p2p": ("p2p", [], None, None),
+}
+NETWORKS = ["mainnet", "testnet", "regtest"]
 _FIX = {}
 
 
@@ -468,8 +478,9 @@ def io_runs(scn, has_toml, fin, fout, source):
         if data_name:
             return ref_encode_input(f, fx[data_name])
         return b""
-    ra = run_main(sub, cli_a, None, None, has_toml, stdin_for(fin_a), 0, argv if sub else None)
-    rb = run_main(sub, [], ft, fj, has_toml, stdin_for(good["input_format"]), 0, argv if sub else None)
+    gp = SCN_GETPASS.get(scn, "")
+    ra = run_main(sub, cli_a, None, None, has_toml, stdin_for(fin_a), 0, argv if sub else None, gp)
+    rb = run_main(sub, [], ft, fj, has_toml, stdin_for(good["input_format"]), 0, argv if sub else None, gp)
     return ra, rb, fout_a, good["output_format"], (sub, argv, cli_a, ft, fj)
 
 
@@ -501,8 +512,53 @@ def io_verdict(scn, has_toml, fin, fout, source):
     return None
 
 
+def _net_files(has_toml, net, source):
+    other = NETWORKS[(NETWORKS.index(net) + 1) % 3]
+    if source == "json":
+        return {"network": net}, None, net
+    if source == "toml":
+        return None, {"network": net}, (net if has_toml else "mainnet")
+    return ({"network": other}, {"network": net}, net) if has_toml else ({"network": net}, {"network": other}, net)
+
+
+def net_verdict(scn, has_toml, net, source):
+    """the network coming ONLY from the config file(s) must behave exactly like -N <network>"""
+    sub, argv, data_name, raw_name = NET_SCENARIOS[scn]
+    fx = fixtures()
+    stdin = fx[raw_name] if raw_name else (ref_encode_input("hex", fx[data_name]) if data_name else b"")
+    fj, ft, eff = _net_files(has_toml, net, source)
+    gp = SCN_GETPASS.get(scn, "")
+    ra = run_main(sub, [("network", eff)], None, None, has_toml, stdin, 0, argv, gp)
+    rb = run_main(sub, [], ft, fj, has_toml, stdin, 0, argv, gp)
+    what = "`bits %s %s` with config.toml=%r config.json=%r (TOML %ssupported) and no -N" % (
+        sub, " ".join(argv), ft, fj, "" if has_toml else "not ")
+    for k in ("exit", "ret", "out"):
+        if ra[k] != rb[k]:
+            return "%s: %s is %r, but with -N %s and no file it is %r" % (what, k, common.short(rb[k], 200), eff,
+                                                                       common.short(ra[k], 200))
+    ca = [(n, a_) for (n, a_, _) in ra["calls"] if n == "set_magic_start_bytes"]
+    cb = [(n, a_) for (n, a_, _) in rb["calls"] if n == "set_magic_start_bytes"]
+    if ca != cb:
+        return "%s selects %r, -N %s selects %r" % (what, cb, eff, ca)
+    if scn != "p2p" and (ra["exit"] is not None or (isinstance(ra["ret"], str) and ra["ret"].startswith("ERROR"))):
+        return "reference run failed: -N %s exit=%r ret=%r" % (eff, ra["exit"], ra["ret"])
+    if scn == "p2p" and ca != [("set_magic_start_bytes", (eff,))]:
+        return "reference run `bits p2p -N %s` selected %r" % (eff, ca)
+    return None
+
+
+def impl_main_net(scn, has_toml, net, source):
+    return net_verdict(scn, has_toml, net, source) is None
+
+
 def impl_main_io(scn, has_toml, fin, fout, source):
     return io_verdict(scn, has_toml, fin, fout, source) is None
+
+
+def impl_config_attrs():
+    """every attribute name of a live Config object that is not a configuration option"""
+    import bits.config as C
+    return sorted(n for n in dir(C.Config()) if n not in CONFIG_KEYS)
 
 
 def impl_io_branches():
@@ -584,7 +640,9 @@ IMPL = {
     "main_sub": impl_main_sub,
     "accepts_table": impl_accepts_table,
     "main_io": impl_main_io,
+    "main_net": impl_main_net,
     "io_branches": impl_io_branches,
+    "config_attrs": impl_config_attrs,
     "format_option": lambda s: __import__("bits.__main__").__main__.format_option(s),
 }
 
@@ -607,6 +665,11 @@ def model_call(c):
     if op == "main_sub":
         has_toml, sub, cli, ftoml, fjson = a[:5]
         return "c20_main_config", [has_toml, sub, cli, ftoml, fjson]
+    if op == "main_net":
+        scn, has_toml, net, source = a
+        fj, ft, eff = _net_files(has_toml, net, source)
+        return "c20_option_is", [has_toml, NET_SCENARIOS[scn][0], [], None if ft is None else sorted([k, v] for k, v in ft.items()),
+                                 None if fj is None else sorted([k, v] for k, v in fj.items()), "network", eff]
     if op == "main_io":
         scn, has_toml, fin, fout, source = a
         sub = SCENARIOS[scn][0]
@@ -800,8 +863,38 @@ FILE_VALUES = {
     "rpc_password": ["file-pw", "fp2"],
     "rpc_datadir": ["file-datadir", "fd2", ""],
 }
-UNKNOWN_KEYS = ["foo", "self", "config_dir", "subcommand", "in_file", "log_level__explicit", "output_format__explicit",
-                "Self", "loglevel", "log-level", "network ", ""]
+import keyword as _keyword
+
+
+class _Plain(object):
+    pass
+
+
+# undefined keys a config file may carry; every one must be ignored.
+#  (a) attribute names every Python object has (dunders) + the method names of Config + names that are special to
+#      Python calls -- the live dir(Config()) is checked against this list in extra_checks;
+UNKNOWN_ATTRS = sorted(set(dir(_Plain())) | {"update", "load_config", "load", "save", "self", "cls", "kwargs", "args",
+                                             "__slots__", "__getattr__", "__call__", "__del__", "__len__", "__bool__"})
+#  (b) Python keywords;
+UNKNOWN_KEYWORDS = sorted(_keyword.kwlist)
+#  (c) argparse dests that are not configuration options, and the `__explicit` marks;
+UNKNOWN_DESTS = ["subcommand", "config_dir", "in_file", "out_file", "compressed", "decode", "print", "addr_type", "type",
+                 "data", "witness_version", "strength", "from_entropy", "to_entropy", "to_seed", "to_master_key", "path",
+                 "xpub", "dump", "script_args", "witness", "msg", "sighash", "anyone_can_pay", "verify", "signature",
+                 "msg_preimage", "check", "hrp", "txins", "txouts", "version", "locktime", "script_witnesses",
+                 "sender_addr", "recipient_addr", "change_addr", "send_fraction", "miner_fee", "seeds", "blockheight",
+                 "header_only", "recv_addr", "limit", "rpc_command", "params", "help",
+                 "log_level__explicit", "output_format__explicit", "input_format__explicit", "network__explicit"]
+#  (d) near misses of a defined key: case, dash for underscore, surrounding / inner white space, prefix / suffix;
+UNKNOWN_NEAR = [v for k in CONFIG_KEYS for v in (k.upper(), k.title(), k.replace("_", "-"), " " + k, k + " ", "\t" + k,
+                                                 k + "\n", k.replace("_", " "), k.replace("_", ""), k + "_", "_" + k,
+                                                 k + "s", k[:-1])]
+#  (e) the empty key and other junk
+UNKNOWN_MISC = ["", " ", "foo", "Self", "loglevel", "0", "log_level.x", "a b", "é", "bits", "config", "Config"]
+UNKNOWN_KEYS = ["foo", "self", "update", "__init__", "__class__", "__dict__", "class", "subcommand", "in_file",
+                "log_level__explicit", "LOG_LEVEL", "log-level", "network ", ""] + \
+    [k for k in UNKNOWN_ATTRS + UNKNOWN_KEYWORDS + UNKNOWN_DESTS + UNKNOWN_NEAR + UNKNOWN_MISC]
+UNKNOWN_KEYS = [k for i, k in enumerate(UNKNOWN_KEYS) if k not in UNKNOWN_KEYS[:i] and k not in CONFIG_KEYS]
 
 
 def _mk_main_case(cls, sub, has_toml, cli, ftoml, fjson, stdin=None, style=0):
@@ -861,21 +954,33 @@ def gen_prec_cases(rng, tier):
             ftoml = None if rng.random() < 0.3 else {k: rng.choice(FILE_VALUES[k]) for k in CONFIG_KEYS if rng.random() < 0.5}
             for d in (fjson, ftoml):
                 if d is not None and rng.random() < 0.3:
-                    d[rng.choice(UNKNOWN_KEYS[:8])] = "junk"
+                    d[rng.choice(UNKNOWN_KEYS[:14] if rng.random() < 0.5 else UNKNOWN_KEYS)] = "junk"
             stdin = _base_stdin(sub, has_toml, cli, ftoml, fjson, rng) if sub == "" else None
             out.append(_mk_main_case("multi-%s" % (sub or "base"), sub, has_toml, cli, ftoml, fjson, stdin, style=n))
-    # unknown keys are ignored
-    for sub in (["", "key", "sha256", "rpc", "addr"] if not T else list(ACCEPTS)):
-        for i, uk in enumerate(UNKNOWN_KEYS):
-            for where in (0, 1):
-                if where == 1 and uk == "":
-                    pass
-                d = {uk: "junk%d" % i}
+    # unknown keys are ignored: every undefined key, in config.json and in config.toml, alone and next to a defined
+    # key, with string and (JSON) non-string values; and all of them at once for every subcommand
+    subs_all = list(ACCEPTS)
+    junk_values = ["junk", "", "error", 5, True, None]
+    for i, uk in enumerate(UNKNOWN_KEYS):
+        for where in (0, 1):
+            subs = subs_all if (T and i < 40) else [subs_all[(i + 7 * where) % len(subs_all)]] + ([""] if i < 14 and where else [])
+            for sub in subs:
+                v = junk_values[(i + where) % len(junk_values)] if not where else junk_values[(i + where) % 3]
+                d = {uk: v}
                 if i % 2:
                     d["log_level"] = "debug"
+                if i % 3 == 0:
+                    d["output_format"] = "bin"
                 ftoml, fjson = (d, None) if where else (None, d)
                 stdin = b"00\n" if sub == "" else None
-                out.append(_mk_main_case("unknown-key", sub, True, [], ftoml, fjson, stdin))
+                out.append(_mk_main_case("unknown-key", sub, bool((i + where) % 5), [], ftoml, fjson, stdin))
+    for si, sub in enumerate(subs_all):
+        for where in (0, 1):
+            d = {uk: "junk" for uk in UNKNOWN_KEYS}
+            d["network"] = "testnet"
+            ftoml, fjson = (d, {"network": "regtest"}) if where else (None, d)
+            cli = [("log_level", "info")] if si % 2 else []
+            out.append(_mk_main_case("unknown-key-all", sub, True, cli, ftoml, fjson, b"00\n" if sub == "" else None))
     # non-string values in config.json
     for sub in ("", "sha256"):
         for v in (None, 5, True, 0, False):
@@ -942,6 +1047,11 @@ def gen_io_cases(rng, tier):
                                           or (source == "toml" and has_toml and (fin != "hex" or fout != "hex"))):
                             continue
                         out.append(case("io-%s" % scn, "main_io", scn, has_toml, fin, fout, source))
+    for scn in sorted(NET_SCENARIOS):
+        for net in NETWORKS:
+            for source in ("json", "toml", "both"):
+                for has_toml in (True, False):
+                    out.append(case("net-%s" % scn, "main_net", scn, has_toml, net, source))
     return out
 
 
@@ -1060,6 +1170,17 @@ def _oracle_main(c):
             src = "command line" if k in dict(cli) else "config file / default"
             return "`bits %s`: option %s is %r in effect, but explicit flag > config file (%s) > default requires %r [%s]" % (
                 sub, k, got[k], "config.toml" if (has_toml and ftoml is not None) else "config.json", wantn[k], src)
+    # ---- unknown keys: every command behaves exactly as without them ----
+    if any(k not in CONFIG_KEYS for f in (ftoml, fjson) if f for k in f):
+        strip = lambda f: None if f is None else {k: v for k, v in f.items() if k in CONFIG_KEYS}
+        r0 = run_main(sub, cli, strip(ftoml), strip(fjson), has_toml, stdin, style)
+        for what in ("ret", "exit", "out", "handlers", "config"):
+            if r0[what] != r[what]:
+                return "`bits %s` with the undefined keys %r in its config file: %s is %r, without them %r" % (
+                    sub, sorted(k for f in (ftoml, fjson) if f for k in f if k not in CONFIG_KEYS)[:6], what,
+                    common.short(r[what], 200), common.short(r0[what], 200))
+        if [(n, a_, sorted(k_.items())) for (n, a_, k_) in r0["calls"]] != [(n, a_, sorted(k_.items())) for (n, a_, k_) in r["calls"]]:
+            return "`bits %s`: the calls reaching rpc/send/mine/p2p differ with undefined keys in the config file" % sub
     # ---- behaviour ----
     lvl = LEVELS.get(want["log_level"]) if isinstance(want["log_level"], str) else None
     if lvl is not None and any(h != lvl for h in r["handlers"]):
@@ -1130,6 +1251,8 @@ def prop_oracle(c):
         return _oracle_main(c)
     if op == "main_io":
         return io_verdict(*c["args"][:5])
+    if op == "main_net":
+        return net_verdict(*c["args"][:4])
     if op == "format_option":
         import bits.__main__ as M
         want = ref_format_arg(c["args"][0])
@@ -1153,6 +1276,11 @@ def extra_checks(ctx):
     if r[0] != "ok" or common.norm(r[1]) != want:
         out.append({"kind": "obligation", "obligation": "harness:accepts-table",
                     "detail": "configurable options per subcommand changed: live %r, harness %r" % (r, want)})
+    r = impl.call("config_attrs", [])
+    missing = sorted(set(r[1]) - set(UNKNOWN_KEYS)) if r[0] == "ok" else ["<config_attrs failed: %r>" % (r,)]
+    if missing:
+        out.append({"kind": "obligation", "obligation": "harness:config-attrs",
+                    "detail": "attribute names of Config() not among the undefined keys that are generated: %r" % missing})
     r = impl.call("io_branches", [])
     covered = sorted(set(tuple(b) for sc in SCENARIOS.values() for b in sc[6]))
     live = sorted(tuple(x) for x in common.norm(r[1])) if r[0] == "ok" else None
@@ -1171,7 +1299,7 @@ def extra_checks(ctx):
     n = bad = k = 0
     seen = set()
     for c in cases:
-        if c["op"] in ("accepts_table", "io_branches"):
+        if c["op"] in ("accepts_table", "io_branches", "config_attrs"):
             continue
         k += 1
         if c["cls"] in ("w-exh2", "conv-exh2", "w-exh3-sample", "conv-exh3-sample", "r-bin-fuzz", "r-hex-fuzz") and k % 4:
